@@ -82,6 +82,10 @@ func (s *Service) OnSurvey(queryType string, payload []byte) ([]byte, bool) {
 
 	// Decode the request
 	var target message.Ssid
+	if !message.FitsCount(payload, 1) {
+		return nil, false
+	}
+
 	if err := binary.Unmarshal(payload, &target); err != nil {
 		return nil, false
 	}
